@@ -348,8 +348,72 @@ def sequence(rec, rng, cid, scratch):
                   "RateManager sees %d of %d" % (len(rm.ratings),
                                                  len(stored)),
                   {"id": cid, "history": hist})
+    if h5path.exists() and stored:
+        folder_load(rec, rng, cid, scratch, h5path, stored, hist)
     rec.sample({"history": hist}, limit=1)
     return files, h5path, stored
+
+
+def folder_load(rec, rng, cid, scratch, h5path, stored, hist):
+    """two containers in one folder that hold the same curve with different
+    fits (within one container that is refused, across containers it is
+    legal): loading the folder returns every entry as stored"""
+    from nanite.rate.io import load
+    folder = pathlib.Path(scratch) / ("folder_%d_%d" % tuple(cid))
+    folder.mkdir()
+    a = folder / "a_first.h5"
+    b = folder / "b_second.h5"
+    shutil.copy(h5path, a)
+    expect = {("a_first.h5",) + k: v[2] for k, v in stored.items()}
+    for key in list(stored)[:2]:
+        variant = stored[key][0]
+        v2 = [0, 1, 2, 3][(variant + 1 + int(rng.integers(3))) % 4]
+        if v2 == variant % 8:
+            v2 = (v2 + 1) % 4
+        idnt, kw, pipe = fitted_curve(rng, pathlib.Path(key[0]), key[1], v2)
+        if save(b, idnt, (5, "other", "second container")) == "ok":
+            expect[("b_second.h5",) + key] = idnt
+    case = {"id": cid, "history": hist, "kind": "folder-load"}
+    rec.event("folders with two containers loaded")
+    rec.evaluated(dg=("folder", cid, sorted(str(k) for k in expect)))
+    try:
+        got = load(folder)
+    except BaseException as e:  # noqa
+        rec.violation("folder-load/raises/" + type(e).__name__,
+                      "load(folder) raised %s" % str(e)[:80], case)
+        shutil.rmtree(folder, ignore_errors=True)
+        return
+    rec.check(len(got) == len(expect), "folder-load/entry-count",
+              "%d entries loaded, %d stored in the two containers"
+              % (len(got), len(expect)), case)
+    # entries come container by container (sorted paths), in container order
+    from nanite.rate.io import load_hdf5
+    per = load_hdf5(a, meta_only=True), load_hdf5(b, meta_only=True) \
+        if b.exists() else []
+    names = ["a_first.h5"] * len(per[0]) + ["b_second.h5"] * len(per[1])
+    for cont, r in zip(names, got):
+        ds = r["data_set"]
+        cand = [v for k, v in expect.items() if k[0] == cont and
+                k[2] == r["enum"] and
+                ds.path.name.endswith(pathlib.Path(k[1]).name)]
+        if not rec.check(len(cand) == 1, "folder-load/entry-unknown",
+                         "entry enum %r of %s not among the stored ones"
+                         % (r["enum"], cont), case):
+            continue
+        rec.event("folder entries compared with what was stored")
+        for col in COLS:
+            rec.check(col in ds and np.array_equal(
+                np.asarray(ds[col]), np.asarray(cand[0][col]),
+                equal_nan=True),
+                "folder-load/column/" + col.replace(" ", "-"),
+                "container %s: column '%s' differs from what was stored "
+                "there" % (cont, col), case)
+        rec.check(ds.fit_properties.get("hash") ==
+                  cand[0].fit_properties.get("hash"),
+                  "folder-load/fit-properties",
+                  "container %s: fit hash differs from what was stored"
+                  % cont, case)
+    shutil.rmtree(folder, ignore_errors=True)
 
 
 class FaultInjector:
